@@ -131,7 +131,11 @@ static Bytes l4_bytes(const Req& q, bool reply, const Addr& src, const Addr& dst
     }
 }
 static Bytes l3_bytes(const Req& q, const Addr& src, const Addr& dst, uint8_t proto, const Bytes& l4, Rng& r, uint16_t ipid) {
-    if (q.v6) return ip6_bytes(src, dst, proto, l4, (uint8_t)r.range(1, 255));
+    if (q.v6) {
+        if (!q.ipopt) return ip6_bytes(src, dst, proto, l4, (uint8_t)r.range(1, 255));
+        // one destination-options / hop-by-hop header of (units+1)*8 bytes in front of the upper layer (units kept in q.tos)
+        size_t units = q.tos % 3; Bytes e; e.push_back(proto); e.push_back((uint8_t)units); size_t body = 6 + 8 * units; e.push_back(1); e.push_back((uint8_t)(body - 2)); for (size_t i = 0; i + 2 < body; ++i) e.push_back(0); putb(e, l4);
+        return ip6_bytes(src, dst, (uint8_t)((q.tos & 4) ? 0 : 60), e, (uint8_t)r.range(1, 255)); }
     Ip4Hdr h; h.src = src; h.dst = dst; h.proto = proto; h.id = ipid; h.ttl = (uint8_t)r.range(1, 255); h.tos = (uint8_t)(r.chance(0.3) ? r.next() : 0);
     // replies whose IP option layout differs from the request's are left open by the property: generated frames keep the request's layout
     if (q.ipopt) { for (int i = 0; i < 4; ++i) h.options.push_back(1); }
@@ -164,7 +168,9 @@ struct SockEngine : Engine {
             q.smac = Mac::of((uint8_t)cfg.range(1, 3)); q.dmac = Mac::of((uint8_t)cfg.range(4, 6)); q.vid = (uint16_t)cfg.range(0, 4095);
             if (q.v6) { uint8_t a[16] = { 0x20, 0x01, 0x0d, 0xb8 }, b[16] = { 0x20, 0x01, 0x0d, 0xb8 }; a[15] = (uint8_t)cfg.range(1, 3); b[15] = (uint8_t)cfg.range(4, 6); if (cfg.chance(0.3)) { b[0] = 0x2a; b[1] = 0x02; } if (cfg.chance(0.2)) { for (int i = 4; i < 15; ++i) b[i] = (uint8_t)cfg.next(); } q.src = Addr::v6(a); q.dst = Addr::v6(b); }
             else { q.src = Addr::v4(10, 0, (uint8_t)cfg.range(0, 1), (uint8_t)cfg.range(1, 3)); q.dst = Addr::v4(cfg.chance(0.5) ? 10 : 192, (uint8_t)cfg.range(0, 1), 0, (uint8_t)cfg.range(4, 6)); }
-            q.ttl = (uint8_t)cfg.range(1, 255); q.tos = (uint8_t)(cfg.chance(0.3) ? cfg.next() : 0); q.ipid = (uint16_t)cfg.range(1, 65535); q.ipopt = !q.v6 && cfg.chance(0.2);
+            bool bcast = !q.v6 && q.l4 != 7 && cfg.chance(0.1); if (bcast) { q.dst = Addr::v4(255, 255, 255, 255); for (int i = 0; i < 6; ++i) q.dmac.b[i] = 0xff; }
+            const Addr ra = bcast ? Addr::v4(10, 0, 0, 77) : q.dst; Mac rm = q.dmac; if (bcast) rm = Mac::of(5);      // who answers
+            q.ttl = (uint8_t)cfg.range(1, 255); q.tos = (uint8_t)(cfg.chance(0.3) ? cfg.next() : 0); q.ipid = (uint16_t)cfg.range(1, 65535); q.ipopt = cfg.chance(q.v6 ? 0.3 : 0.2); if (q.v6) q.tos = (uint8_t)cfg.below(8);
             q.sport = (uint16_t)cfg.range(1, 65535); q.dport = cfg.chance(0.3) ? 53 : (uint16_t)cfg.range(1, 65535); if (q.sport == q.dport) q.dport ^= 1;
             if (q.l4 == 7) { q.sport = 68; q.dport = 67; } if (q.l4 == 8) { q.sport = 546; q.dport = 547; }
             q.seq = (uint32_t)cfg.next(); q.ack = (uint32_t)cfg.next(); q.tcpflags = cfg.chance(0.6) ? TH_SYN : (TH_ACK | TH_PSH);
@@ -180,7 +186,7 @@ struct SockEngine : Engine {
             std::vector<In> ins; const Addr other = q.v6 ? Addr::v6((const uint8_t*)"\x20\x01\x0d\xb8\0\0\0\0\0\0\0\0\0\0\0\x63") : Addr::v4(172, 16, 0, 99);
             auto frame = [&](const Addr& s, const Addr& d, const Mac& ms, const Mac& md, uint16_t vid, uint16_t sp, uint16_t dp, uint16_t id, uint16_t sq, int ty, bool reply) {
                 uint8_t proto = 0; Bytes l4 = l4_bytes(q, reply, s, d, sp, dp, id, sq, ty, net, proto); return l2_wrap(q, ms, md, vid, l3_bytes(q, s, d, proto, l4, net, (uint16_t)net.next()), net.chance(0.7)); };
-            auto mirror = [&]() { return frame(q.dst, q.src, q.dmac, q.smac, q.vid, q.dport, q.sport, q.id, q.seqn, -1, true); };
+            auto mirror = [&]() { return frame(ra, q.src, rm, q.smac, q.vid, q.dport, q.sport, q.id, q.seqn, -1, true); };
             // the mirror: delay classes - fast, just inside the must-catch window, in the last second, too late, lost
             int mclass = (int)cfg.below(10); int64_t md = 0; bool mlost = false;
             if (mclass < 4) md = (int64_t)cfg.small(100, std::min<int64_t>(T - 1000000 > 200 ? T - 1000000 - 100 : 200, 2000000));
@@ -200,32 +206,33 @@ struct SockEngine : Engine {
                 In s; s.label = 0; s.at = cfg.chance(0.7) ? (int64_t)cfg.range(10, std::max<int64_t>(md, 20)) : (int64_t)cfg.range(10, T + 500000);
                 int kind = (int)cfg.below(16); uint16_t vid2 = (uint16_t)((q.vid + 1 + cfg.below(4094)) & 0xfff); if (vid2 == q.vid) vid2 ^= 1;
                 switch (kind) {
-                    case 0: if (!q.l2) { kind = 2; } else { s.pert = "eth-dst"; s.f = frame(q.dst, q.src, q.dmac, Mac::of(9), q.vid, q.dport, q.sport, q.id, q.seqn, -1, true); break; }
-                    case 1: if (!q.vlan) { kind = 3; } else { s.pert = "vlan-id"; s.f = frame(q.dst, q.src, q.dmac, q.smac, vid2, q.dport, q.sport, q.id, q.seqn, -1, true); break; }
-                    case 2: s.pert = "ip-src"; s.f = frame(other, q.src, q.dmac, q.smac, q.vid, q.dport, q.sport, q.id, q.seqn, -1, true); break;
-                    case 3: s.pert = "ip-dst"; s.f = frame(q.dst, other, q.dmac, q.smac, q.vid, q.dport, q.sport, q.id, q.seqn, -1, true); break;
-                    case 4: if (q.l4 > 2 && q.l4 < 7) { s.pert = "icmp-id"; s.f = frame(q.dst, q.src, q.dmac, q.smac, q.vid, q.dport, q.sport, (uint16_t)(q.id + 1 + cfg.below(65534)), q.seqn, -1, true); } else { s.pert = "l4-sport"; s.f = frame(q.dst, q.src, q.dmac, q.smac, q.vid, (uint16_t)(q.dport + 1 + cfg.below(65534)), q.sport, q.id, q.seqn, -1, true); } break;
-                    case 5: if (q.l4 > 2 && q.l4 < 7) { s.pert = "icmp-seq"; s.f = frame(q.dst, q.src, q.dmac, q.smac, q.vid, q.dport, q.sport, q.id, (uint16_t)(q.seqn + 1 + cfg.below(65534)), -1, true); } else { s.pert = "l4-dport"; s.f = frame(q.dst, q.src, q.dmac, q.smac, q.vid, q.dport, (uint16_t)(q.sport + 1 + cfg.below(65534)), q.id, q.seqn, -1, true); } break;
-                    case 6: if (q.l4 >= 7) { s.pert = "dhcp-xid"; s.f = frame(q.dst, q.src, q.dmac, q.smac, q.vid, q.dport, q.sport, (uint16_t)(q.id + 1 + cfg.below(65534)), q.seqn, -1, true); }
-                            else if (q.l4 > 2) { s.pert = "icmp-type"; static const int wrong4[4] = { 8, 13, 17, 11 }; int ty = q.l4 == 6 ? (cfg.chance(0.5) ? 128 : 1) : wrong4[cfg.below(4)]; s.f = frame(q.dst, q.src, q.dmac, q.smac, q.vid, q.dport, q.sport, q.id, q.seqn, ty, true); }
-                            else if (q.l4 == 2) { s.pert = "dns-id"; s.f = frame(q.dst, q.src, q.dmac, q.smac, q.vid, q.dport, q.sport, (uint16_t)(q.id + 1 + cfg.below(65534)), q.seqn, -1, true); }
-                            else { s.pert = "ports-not-swapped"; s.f = frame(q.dst, q.src, q.dmac, q.smac, q.vid, q.sport, q.dport, q.id, q.seqn, -1, true); } break;
+                    case 0: if (!q.l2) { kind = 2; } else { s.pert = "eth-dst"; s.f = frame(ra, q.src, rm, Mac::of(9), q.vid, q.dport, q.sport, q.id, q.seqn, -1, true); break; }
+                    case 1: if (!q.vlan) { kind = 3; } else { s.pert = "vlan-id"; s.f = frame(ra, q.src, rm, q.smac, vid2, q.dport, q.sport, q.id, q.seqn, -1, true); break; }
+                    case 2: if (bcast) { s.pert = "unrelated"; s.f = frame(other, other, Mac::of(7), Mac::of(8), q.vid, q.dport, q.sport, q.id, q.seqn, -1, true); break; }   /* any host may answer a broadcast: a reply from another source is not a stranger */
+                            s.pert = "ip-src"; s.f = frame(other, q.src, rm, q.smac, q.vid, q.dport, q.sport, q.id, q.seqn, -1, true); break;
+                    case 3: s.pert = "ip-dst"; s.f = frame(ra, other, rm, q.smac, q.vid, q.dport, q.sport, q.id, q.seqn, -1, true); break;
+                    case 4: if (q.l4 > 2 && q.l4 < 7) { s.pert = "icmp-id"; s.f = frame(ra, q.src, rm, q.smac, q.vid, q.dport, q.sport, (uint16_t)(q.id + 1 + cfg.below(65534)), q.seqn, -1, true); } else { s.pert = "l4-sport"; s.f = frame(ra, q.src, rm, q.smac, q.vid, (uint16_t)(q.dport + 1 + cfg.below(65534)), q.sport, q.id, q.seqn, -1, true); } break;
+                    case 5: if (q.l4 > 2 && q.l4 < 7) { s.pert = "icmp-seq"; s.f = frame(ra, q.src, rm, q.smac, q.vid, q.dport, q.sport, q.id, (uint16_t)(q.seqn + 1 + cfg.below(65534)), -1, true); } else { s.pert = "l4-dport"; s.f = frame(ra, q.src, rm, q.smac, q.vid, q.dport, (uint16_t)(q.sport + 1 + cfg.below(65534)), q.id, q.seqn, -1, true); } break;
+                    case 6: if (q.l4 >= 7) { s.pert = "dhcp-xid"; s.f = frame(ra, q.src, rm, q.smac, q.vid, q.dport, q.sport, (uint16_t)(q.id + 1 + cfg.below(65534)), q.seqn, -1, true); }
+                            else if (q.l4 > 2) { s.pert = "icmp-type"; static const int wrong4[4] = { 8, 13, 17, 11 }; int ty = q.l4 == 6 ? (cfg.chance(0.5) ? 128 : 1) : wrong4[cfg.below(4)]; s.f = frame(ra, q.src, rm, q.smac, q.vid, q.dport, q.sport, q.id, q.seqn, ty, true); }
+                            else if (q.l4 == 2) { s.pert = "dns-id"; s.f = frame(ra, q.src, rm, q.smac, q.vid, q.dport, q.sport, (uint16_t)(q.id + 1 + cfg.below(65534)), q.seqn, -1, true); }
+                            else { s.pert = "ports-not-swapped"; s.f = frame(ra, q.src, rm, q.smac, q.vid, q.sport, q.dport, q.id, q.seqn, -1, true); } break;
                     case 7: { s.pert = "unrelated"; Addr x = other, y = q.v6 ? Addr::v6((const uint8_t*)"\x20\x01\x0d\xb8\0\0\0\0\0\0\0\0\0\0\0\x64") : Addr::v4(172, 16, 0, 100); s.f = frame(x, y, Mac::of(7), Mac::of(8), vid2, (uint16_t)cfg.next(), (uint16_t)cfg.next(), (uint16_t)cfg.next(), (uint16_t)cfg.next(), -1, cfg.chance(0.5)); break; }
                     case 8: case 9: if (q.v6) { s.pert = "unrelated"; s.f = frame(other, q.src, Mac::of(7), q.smac, q.vid, (uint16_t)cfg.next(), (uint16_t)cfg.next(), (uint16_t)cfg.next(), (uint16_t)cfg.next(), 1, true); }
                             else {   // ICMP destination unreachable quoting ANOTHER packet, sent to us by some router
                                 s.pert = "unreach-foreign"; Ip4Hdr qh; qh.src = q.src; qh.dst = cfg.chance(0.5) ? q.dst : other; qh.proto = cfg.chance(0.5) ? 17 : 6; qh.id = (uint16_t)(q.ipid + 1 + cfg.below(1000)); qh.ttl = (uint8_t)cfg.range(1, 64);
                                 Bytes quoted = ip4_bytes(qh, net.bytes(8)); Bytes ic = icmp_bytes(3, (uint8_t)cfg.range(0, 3), 0, 0, quoted);
-                                Ip4Hdr oh; oh.src = cfg.chance(0.5) ? q.dst : other; oh.dst = q.src; oh.proto = 1; oh.id = (uint16_t)net.next(); Req q4 = q; q4.v6 = false; s.f = l2_wrap(q4, q.dmac, q.smac, q.vid, ip4_bytes(oh, ic), true); }
+                                Ip4Hdr oh; oh.src = cfg.chance(0.5) ? ra : other; oh.dst = q.src; oh.proto = 1; oh.id = (uint16_t)net.next(); Req q4 = q; q4.v6 = false; s.f = l2_wrap(q4, rm, q.smac, q.vid, ip4_bytes(oh, ic), true); }
                             break;
                     case 10: case 11: case 12: {   // truncations of the mirror below the end of the innermost matched header
-                        Bytes m = mirror(); size_t l2 = q.l2 ? (q.vlan ? 18 : 14) : 14; size_t l3 = q.v6 ? 40 : 20; size_t l4need = q.l4 == 0 ? 20 : q.l4 == 1 ? 8 : q.l4 == 2 ? 20 : q.l4 == 7 ? 8 + 236 : q.l4 == 8 ? 8 + 4 : 8;
-                        size_t base = q.l2 ? 0 : l2; size_t cutmax = l2 + l3 + l4need - 1; std::vector<size_t> pts; pts.push_back(base); pts.push_back(l2); pts.push_back(l2 + 1); pts.push_back(l2 + l3 - 1); pts.push_back(l2 + l3); pts.push_back(l2 + l3 + 1); pts.push_back(cutmax); if (l2 > 1) pts.push_back(l2 - 1);
+                        Bytes m = mirror(); size_t l2 = q.l2 ? (q.vlan ? 18 : 14) : 14; size_t ext6 = (q.v6 && q.ipopt) ? ((size_t)(q.tos % 3) + 1) * 8 : 0; size_t l3 = q.v6 ? 40 + ext6 : 20; size_t l4need = q.l4 == 0 ? 20 : q.l4 == 1 ? 8 : q.l4 == 2 ? 20 : q.l4 == 7 ? 8 + 236 : q.l4 == 8 ? 8 + 4 : 8;
+                        size_t base = q.l2 ? 0 : l2; size_t cutmax = l2 + l3 + l4need - 1; std::vector<size_t> pts; pts.push_back(base); pts.push_back(l2); pts.push_back(l2 + 1); pts.push_back(l2 + l3 - 1); pts.push_back(l2 + l3); pts.push_back(l2 + l3 + 1); pts.push_back(cutmax); if (l2 > 1) pts.push_back(l2 - 1); if (ext6) { for (size_t j = 1; j <= 8; ++j) pts.push_back(l2 + l3 - j); pts.push_back(l2 + 40 + 1); pts.push_back(l2 + 40 + 2); }
                         size_t cut = pts[cfg.below(pts.size())]; if (cfg.chance(0.3)) cut = (size_t)cfg.range((int64_t)base, (int64_t)cutmax); if (cut > cutmax) cut = cutmax; if (cut < base) cut = base;
                         m.resize(std::min(m.size(), cut)); s.pert = fmt("truncated:%zu", cut - base); s.f = m; break; }
                     case 13: { s.pert = "zero-length"; Bytes m = mirror(); m.resize(q.l2 ? 0 : 14); s.f = m; break; }
                     case 14: { s.pert = "request-echoed"; s.f = frame(q.src, q.dst, q.smac, q.dmac, q.vid, q.sport, q.dport, q.id, q.seqn, -1, false); break; }   // our own request looped back (e.g. seen on a packet socket)
                     default: { s.pert = "other-transport"; Req q2 = q; q2.l4 = q.v6 ? (q.l4 == 6 ? 1 : 6) : ((q.l4 >= 3 && q.l4 < 7) ? 1 : 3); q2.payload = wl.bytes(8); uint8_t proto = 0; Bytes l4 = l4_bytes(q2, true, q.dst, q.src, q.dport, q.sport, (uint16_t)(q.id + 1), q.seqn, -1, net, proto);
-                               s.f = l2_wrap(q, q.dmac, q.smac, q.vid, l3_bytes(q, q.dst, q.src, proto, l4, net, (uint16_t)net.next()), true); break; }
+                               s.f = l2_wrap(q, rm, q.smac, q.vid, l3_bytes(q, ra, q.src, proto, l4, net, (uint16_t)net.next()), true); break; }
                 }
                 if (s.pert == "request-echoed" && !q.l2) { /* an L3 raw socket never sees our own outgoing packet */ continue; }
                 if (s.pert == "request-echoed") {
@@ -300,13 +307,13 @@ struct SockEngine : Engine {
             if (!own_unreach.empty()) {
                 std::unique_ptr<Tins::PDU> c(req->clone()); Tins::PDU::serialization_type s = c->serialize(); size_t off = q.l2 ? (q.vlan ? 18 : 14) : 0;
                 Bytes quoted(s.begin() + off, s.begin() + std::min(s.size(), off + 28 + (q.ipopt ? 4 : 0)));
-                Bytes ic = icmp_bytes(3, 3, 0, 0, quoted); Ip4Hdr oh; oh.src = q.dst; oh.dst = q.src; oh.proto = 1; oh.id = 0x4242; oh.tos = 0xc0;
-                for (int ix : own_unreach) simnet::inbound[ix].frame = l2_wrap(q, q.dmac, q.smac, q.vid, ip4_bytes(oh, ic), true);
+                Bytes ic = icmp_bytes(3, 3, 0, 0, quoted); Ip4Hdr oh; oh.src = q.dst.b[0] == 255 ? Addr::v4(10, 0, 0, 77) : q.dst; oh.dst = q.src; oh.proto = 1; oh.id = 0x4242; oh.tos = 0xc0; Mac rmac = q.dmac; if (q.dmac.b[0] == 0xff) rmac = Mac::of(5);
+                for (int ix : own_unreach) simnet::inbound[ix].frame = l2_wrap(q, rmac, q.smac, q.vid, ip4_bytes(oh, ic), true);
             }
             for (auto& in : simnet::inbound) {   // routing metadata from an independent decode
                 const Bytes& f = in.frame; if (f.size() < 14) continue; uint16_t et = get16(&f[12]); size_t o = 14; if (et == 0x8100 && f.size() >= 18) { et = get16(&f[16]); o = 18; }
                 in.ethertype = et; if (f.size() <= o) continue; in.l3off = (int)o; in.v6 = et == 0x86dd;
-                if (et == 0x0800 && f.size() >= o + 20) in.ipproto = f[o + 9]; else if (et == 0x86dd && f.size() >= o + 40) in.ipproto = f[o + 6]; else in.ipproto = -2;
+                if (et == 0x0800 && f.size() >= o + 20) in.ipproto = f[o + 9]; else if (et == 0x86dd && f.size() >= o + 40) { in.ipproto = f[o + 6]; size_t x = o + 40; while ((in.ipproto == 0 || in.ipproto == 60 || in.ipproto == 43) && f.size() >= x + 2) { int nh = f[x]; size_t l = ((size_t)f[x + 1] + 1) * 8; in.ipproto = nh; x += l; } if (in.ipproto == 0 || in.ipproto == 60 || in.ipproto == 43) in.ipproto = q.l4 == 6 ? 58 : 17; } else in.ipproto = -2;
                 if (!q.l2 && in.ipproto == -2) { /* a truncated datagram still reaches the raw socket of the protocol it claimed: use the mirror's */ in.ipproto = q.l4 == 0 ? 6 : ((q.l4 <= 2 || q.l4 >= 7) ? 17 : (q.l4 == 6 ? 58 : 1)); }
             }
             // L3 sockets: a frame with a VLAN tag or cut inside the Ethernet header is not an IP datagram for us
@@ -369,7 +376,7 @@ struct SockEngine : Engine {
             if (!simnet::sent.empty()) {
                 // self-check: what libtins sent decodes to the planned addresses (counted, not a C14 violation)
                 const Bytes& s = simnet::sent[0]; Decoded d = q.l2 ? decode_eth(s) : decode_ip(s.data(), s.size());
-                if (!q.vlan && (!d.is_ip || d.src != q.src || d.dst != q.dst)) st.inc("probe.selfcheck_sent_bytes_unexpected");
+                if (!q.vlan && (!d.is_ip || d.src != q.src || d.dst != q.dst)) st.inc("probe.selfcheck_sent_bytes_unexpected"); if (q.dst.b[0] == 255 && !q.v6) st.inc("probe.broadcast_request"); if (q.v6 && q.ipopt) st.inc("probe.v6_replies_with_extension_header");
             }
         }
         st.sim_us = sim_total; st.sched_sig = sig; st.nontrivial = nontrivial;
